@@ -2,8 +2,8 @@
 // through net/http (http.SetCookie on the way out, Request.Cookie on the way in).
 //
 //	cfg lb=rr|rb codec=<spec> [name=<esc>] [via=rec|srv] [opts=0|1]
-//	upsert <esc-url> [w]        -> ok | err badurl | err <msg>
-//	remove <esc-url>            -> ok | err notfound | err badurl
+//	upsert <esc-url> [w]        -> ok <esc-url>,<weight now>,<key> | err badurl | err <msg>
+//	remove <esc-url>            -> ok <key> | err notfound | err badurl      (<key> = <esc scheme>|<esc host>|<esc path>)
 //	servers                     -> servers <esc-url>,<w>,<esc scheme>|<esc host>|<esc path> ...   (Servers() order, ServerWeight)
 //	codec <spec>                -> ok            (StickySession.SetCookieValue)
 //	mint <spec> <esc-url>       -> minted v:<esc-token>|none <esc-url>,<key>   (a second, foreign StickySession of that
@@ -415,6 +415,8 @@ func (s *h) takeCookie(sc []string, sp *spec) (set string, errs string) {
 	return "v:" + esc(tok), ""
 }
 
+func keyOf(u *url.URL) string { return esc(u.Scheme) + "|" + esc(u.Host) + "|" + esc(u.Path) }
+
 func (s *h) Op(f []string) string {
 	switch f[0] {
 	case "mint":
@@ -474,7 +476,7 @@ func (s *h) Op(f []string) string {
 			if err := s.lb.RemoveServer(u); err != nil {
 				return "err notfound"
 			}
-			return "ok"
+			return "ok " + keyOf(u)
 		}
 		if w >= 0 {
 			err = s.lb.UpsertServer(u, roundrobin.Weight(w))
@@ -484,7 +486,10 @@ func (s *h) Op(f []string) string {
 		if err != nil {
 			return "err " + strings.ReplaceAll(err.Error(), " ", "_")
 		}
-		return "ok"
+		// what was asked for (the URL as given, its identity) and the weight the balancer now reports for it;
+		// ServerWeight looks the server up by URL, it does not go through Servers()
+		wt, _ := s.rr.ServerWeight(u)
+		return fmt.Sprintf("ok %s,%d,%s", esc(u.String()), wt, keyOf(u))
 	case "servers":
 		var b strings.Builder
 		b.WriteString("servers")
